@@ -354,6 +354,12 @@ class Built:
         if k == 'var':
             return self.vars[t[1]]
         if k == 'lit':
+            if t[1][0] == 'l':
+                # a MUTABLE constant (a list): one Python object per written constant, remembered so that the harness can
+                # check that a rule head passes on this very object (existing objects are reused, not copied)
+                if not hasattr(self, 'list_constants'):
+                    self.list_constants = {}
+                return self.list_constants.setdefault(repr(t[1]), self.decode(t[1]))
             return self.decode(t[1])
         if k == 'attr':
             return getattr(self.term(t[2]), t[1])
